@@ -38,6 +38,23 @@ def run(ctx, canary=False):
         ctx.violation("design-level: %s violated in Ledger.tla (AIM, rounds >= 0.9 d)" % r.violated, {"tlc": r.trace_text()}, {"kind": "design"})
     rn = ctx.tlc("dp/Ledger.tla", AIM_NEG_CFG, name="AIM_design_rounds_below_0.9d", workers=1, expect_violation=True)
     ctx.extra["aim_design_rounds_lt_0.9d"] = "WithinBudget violated (design-level counterpart of finding F7)" if rn.violated else "holds"
+    # unbounded d, rounds and annealing depth: Apalache discharges the inductive invariant of LedgerInd.tla
+    obligations = [("Init => IndInv", ["--cinit=CInit", "--init=Init", "--inv=IndInv", "--length=0"]),
+                   ("IndInv /\\ Next => IndInv'", ["--cinit=CInit", "--init=IndInit", "--inv=IndInv", "--length=1"]),
+                   ("IndInv => WithinBudget", ["--cinit=CInit", "--init=IndInit", "--inv=WithinBudget", "--length=0"])]
+    done = 0
+    for label, args in obligations:
+        v = ctx.apalache("dp/LedgerInd.tla", args, name="LedgerInd")
+        if v != "ok":
+            ctx.violation("design-level: Apalache refutes '%s' for the AIM budget machine (LedgerInd.tla)" % label, {"obligation": label}, {"kind": "design"})
+        else:
+            done += 1
+    neg = ctx.apalache("dp/LedgerInd.tla", obligations[1][1], name="LedgerInd_negative_control", sed=(" /\\ 10 * T' >= 9 * d'", ""))
+    if neg != "violated":
+        raise MachineryError("negative control: without rounds >= 0.9 d the AIM invariant should be refuted")
+    ctx.extra["apalache_inductive"] = {"module": "spec/dp/LedgerInd.tla", "obligations": len(obligations), "discharged": done,
+                                       "unbounded": "attributes d, rounds T (10T >= 9d) and annealing depth arbitrary",
+                                       "negative_control": "without rounds >= 0.9 d the invariant is refuted (finding F7)"}
     scs = MC.adversarial(rng) + MC.scenarios(rng, 160 if thorough else 28)
     jobs, results = MC.run_all(scs, None if thorough else 5, rng)
     traces = []
